@@ -447,6 +447,11 @@ type callRec struct {
 	sym   string
 	input []byte
 	lang  *string
+	// for oracles only (never printed): what the handler answered
+	content  string
+	failed   bool
+	setsLang bool
+	answered bool
 }
 
 type recRes struct {
@@ -559,7 +564,12 @@ func (r *recRes) FuncFor(ctx context.Context, sym string) (resource.EntryFunc, e
 		if input != nil {
 			in = append([]byte{}, input...)
 		}
-		r.calls = append(r.calls, callRec{sym, in, l})
+		r.calls = append(r.calls, callRec{sym: sym, input: in, lang: l, content: ru.content, failed: ru.fail, answered: true})
+		for _, fl := range ru.set {
+			if fl == 7 {
+				r.calls[len(r.calls)-1].setsLang = true
+			}
+		}
 		isNil := input == nil
 		if isNil {
 			r.calls[len(r.calls)-1].input = nil
@@ -701,7 +711,7 @@ func (r *recRes) firstFunc() resource.EntryFunc {
 				in = []byte{}
 			}
 		}
-		r.calls = append(r.calls, callRec{"_first", in, l})
+		r.calls = append(r.calls, callRec{sym: "_first", input: in, lang: l})
 		*r.ncalls++
 		if ru == nil {
 			return resource.Result{}, nil
